@@ -40,8 +40,6 @@ ASSUMPTIONS = [
     "NAME is non-empty and contains neither '.' nor '[' (every valid step label, [[:word:]]+, qualifies); for "
     "the index form the literal is a plain (un-prefixed, escape-free) string that does not begin or end with "
     "its own quote character",
-    "bad_order_rejected / watched_complete are stated for prepare_workflow runs that return (the unchanged code "
-    "raises TypeError when an extracted key yields the name None - known finding)",
     "the class of result.unwrapped_combine is the most severe class present (C03)",
 ]
 TRUSTED = ["the Python printer tree -> CEL text and the converter lark.Tree -> Gallina term (both exercised by the "
